@@ -30,6 +30,10 @@ MODELS = {
                                      rule("V", "I", "S", thr=1, coef=1)], 1),
     # SIRS whose influence set depends on the status the node has just taken: a node that became S influences nobody
     "sirs-status-influence": (["S", "I", "R"], [rule("S", "I", "I", thr=1, coef=2), rule("I", "I", "R", base=1), rule("R", "I", "S", base=1)], [0, 1, 1]),
+    # population-wide (mean-field) influence: the rate counts the I's in the whole status dict the function is handed (dist 9 = everyone)
+    "global-pressure": (["S", "I"], [rule("S", "I", "I", dist=9, thr=1, coef=1), rule("I", "S", "S", dist=9, base=1)], 9),
+    "global-threshold-sirs": (["S", "I", "R"], [rule("S", "I", "I", dist=9, thr=2, base=1, coef=1), rule("I", "I", "R", base=1),
+                                                rule("R", "S", "S", dist=9, thr=1, coef=1)], 9),
     "chooser": (["S", "I", "V"], [rule("S", "I", "I", thr=1, coef=1, base=1, alt="V", altif="V"), rule("I", "I", "S", base=1), rule("V", "I", "S", thr=1, coef=1)], 1),
 }
 
@@ -68,6 +72,8 @@ def control_scenarios():
 def within(scn, u, d):
     n = scn["n"]
     a = scn["adj"]
+    if d == 9:
+        return set(range(1, n + 1)) - {u}
     one = {v for v in range(1, n + 1) if a[u - 1][v - 1]}
     if d == 1:
         return one
@@ -86,7 +92,11 @@ def callbacks(scn, log, infl_kind="set", unit=RATE_UNIT):
         r = rules.get(status[node])
         if r is None:
             return 0
-        k = sum(1 for v in within(scn, node, r["dist"]) if status[v] == r["cnt"])
+        if r["dist"] == 9:
+            # a long-range model reads the population off the status dict itself
+            k = sum(1 for v in status if v != node and status[v] == r["cnt"])
+        else:
+            k = sum(1 for v in within(scn, node, r["dist"]) if status[v] == r["cnt"])
         return (r["base"] + r["coef"] * k) * unit if k >= r["thr"] else 0
 
     def transition_choice(G, node, status, parameters):
@@ -153,6 +163,21 @@ def run_scenario(task):
 
         def __getitem__(self, u):
             return back[self.st[u]]
+
+        def __iter__(self):
+            return iter(self.st)
+
+        def __len__(self):
+            return len(self.st)
+
+        def keys(self):
+            return self.st.keys()
+
+        def items(self):
+            return [(u, back[x]) for u, x in self.st.items()]
+
+        def values(self):
+            return [back[x] for x in self.st.values()]
 
     def rf(G_, node, status, parameters):
         return rf0(G_, node, _View(status), parameters)
